@@ -78,7 +78,20 @@ func runGenerated(c *hx.Ctx) error {
 		return err
 	}
 	G.frames()
-	txBudget := c.Scale(1500, 12000)
+	scale := func(quick, thorough int) int { // the search tier stays well below the check's per-run timeout
+		switch c.Tier {
+		case "thorough":
+			return thorough
+		case "search":
+			return quick * 2
+		}
+		return quick
+	}
+	txBudget := scale(1500, 12000)
+	reps := 1
+	if c.Tier == "thorough" {
+		reps = 3
+	}
 	secs := map[string]float64{}
 	defer func() {
 		for k, v := range secs {
@@ -89,11 +102,11 @@ func runGenerated(c *hx.Ctx) error {
 		if G.stop {
 			break
 		}
-		fx, err := newFixture(c.Seed, kind)
+		fx, err := findFixture(c.Seed, kind)
 		if err != nil {
-			c.Fail("C12:fixture-broken", fmt.Sprintf("state %s: %v", kind, err), nil)
-			continue
+			return fmt.Errorf("harness: %v", err) // a machinery error, never a property verdict
 		}
+		c.Rep.Coverage["world-seed:"+kind] = fx.seed
 		c.Rep.Coverage["height:"+kind] = fx.n.Chain.Head.Height()
 		c.Rep.Coverage["period:"+kind] = fmt.Sprint(fx.n.App.State.ValidationPeriod())
 		c.Rep.Coverage["pools:"+kind] = fmt.Sprint(fx.pools())
@@ -113,12 +126,12 @@ func runGenerated(c *hx.Ctx) error {
 			b = txBudget / 6 // empty-head states: the block / proposal / header streams are the point
 		}
 		timed("txs", func() {
-			for rep := 0; rep < c.Scale(1, 3); rep++ { // thorough: every (type, recipient, payload) combination, three draws of the rest
+			for rep := 0; rep < reps; rep++ { // thorough: every (type, recipient, payload) combination, three draws of the rest
 				G.txStream(fx, b)
 			}
 		})
 		if kind == "populated" || (c.Tier != "quick" && i < 4) {
-			timed("fuzz", func() { G.fuzz(fx, c.Scale(20000, 300000), c.Scale(28000, 450000)) })
+			timed("fuzz", func() { G.fuzz(fx, scale(20000, 300000), scale(28000, 450000)) })
 		}
 		fx.close()
 	}
